@@ -341,11 +341,43 @@ FIXED_CASES = [
 ]
 
 
+# "constants never change after deployment": a module-level constant whose initializer contains an environment- or
+# state-dependent sub-expression in ANY position must be rejected -- every expression constructor x every environment read
+_ENV_READS = ["block.number", "block.timestamp", "msg.sender.balance", "tx.origin.balance", "self.balance", "ADDR.balance",
+              "ADDR.codesize", "ADDR.is_contract", "convert(ADDR.codehash, uint256)", "len(msg.data)", "tx.gasprice", "chain.id"]
+_CONST_POSITIONS = [
+    ("direct", "{e}"), ("binop_left", "({e}) + 1"), ("binop_right", "1 + ({e})"), ("unary", "~({e})" ), ("compare", "convert(({e}) > 5, uint256)"),
+    ("boolop", "convert((({e}) > 5) and True, uint256)"), ("subscript_index", "ARR[({e}) % 3]"), ("subscript_index_nested", "MAT[1][({e}) % 2]"),
+    ("ternary_test", "30 if ({e}) > 100 else 7"), ("ternary_arm", "({e}) if True else 7"), ("list_elem_then_index", "[1, ({e}), 3][1]"),
+    ("call_arg_min", "min(({e}), 5)"), ("call_arg_convert", "convert(convert(({e}), uint128), uint256)"),
+    ("struct_member", "S(a=({e}), b=2).a"), ("shift", "({e}) << 1"), ("pow", "2 ** (({e}) % 3)"),
+]
+
+
+def _const_cases():
+    out = []
+    pre = ("ADDR: constant(address) = 0x1111111111111111111111111111111111111111\nARR: constant(uint256[3]) = [1, 2, 3]\n"
+           "MAT: constant(uint256[2][2]) = [[1, 2], [3, 4]]\nstruct S:\n    a: uint256\n    b: uint256\n")
+    for pname, tpl in _CONST_POSITIONS:
+        for k, env in enumerate(_ENV_READS):
+            ee = env if env.startswith("convert(") or "balance" in env or "codesize" in env or "len(" in env or "." in env else env
+            if "is_contract" in env:
+                ee = f"convert({env}, uint256)"
+            src = pre + f"B: constant(uint256) = {tpl.format(e=ee)}\n\n@external\n@view\ndef f() -> uint256:\n    return B\n"
+            out.append((f"const_env:{pname}:{env}", src, "reject"))
+        # control: the same position with a genuine constant must stay acceptable or be rejected for an unrelated reason
+        src = pre + f"B: constant(uint256) = {tpl.format(e='4')}\n\n@external\n@view\ndef f() -> uint256:\n    return B\n"
+        out.append((f"const_env:{pname}:control", src, "either"))
+    return out
+
+
 def fixed_cases(ctx, cfgs):
     """hand-written programs for rule variants outside the calculus (raw_call flags, default arguments)"""
     from vyper.exceptions import VyperException
     n = fails = 0
-    for name, src, want in FIXED_CASES:
+    const_cases = _const_cases()
+    ctx.corr["constant_initializer_env_cases"] = len(const_cases)
+    for name, src, want in FIXED_CASES + const_cases:
         verdicts = {}
         for cfg in cfgs:
             c = compile_full(src, cfg)
